@@ -240,6 +240,44 @@ def by_operator_table(fn: ast.FunctionDef):
     raise AnalysisError('C10.R2', '_by_operator is neither a match on the operator, an if-chain, nor an operator table')
 
 
+def module_consts_of(cp) -> dict:
+    """module-level `NAME = <dict / tuple / constant display>` of the module a runtime copy lives in"""
+    out = {}
+    for st in cp.module_tree.body:
+        if isinstance(st, ast.Assign) and len(st.targets) == 1 and isinstance(st.targets[0], ast.Name) and \
+                isinstance(st.value, (ast.Dict, ast.Tuple, ast.List, ast.Constant)):
+            out[st.targets[0].id] = st.value
+    return out
+
+
+def r2_eval(run: Run, rt, emitted: dict):
+    """the operator table decided by abstract evaluation (engine F) of _by_operator on three ordered pairs of numbers"""
+    import operator as _op
+    want = {'=': _op.eq, '<>': _op.ne, '<': _op.lt, '<=': _op.le, '>': _op.gt, '>=': _op.ge}
+    for cp in rt.copies():
+        fn = cp.members.get('_by_operator')
+        if fn is None:
+            continue
+        for excel_op, py in sorted(emitted.items()):
+            got = []
+            for x, y in ((1, 2), (2, 2), (3, 2)):
+                ev = Evaluator(cp.members, hooks={'_normalize_float_number': _normaliser_hook}, max_depth=6)
+                ev.module_consts = module_consts_of(cp)
+                try:
+                    res = ev.call_method('_by_operator', [const_av(py), const_av(x), const_av(y)])
+                except Unknown as u:
+                    raise AnalysisError('C10.R2', f'_by_operator[{cp.label}]: the abstraction cannot follow the operator table ({u})')
+                except AbsRaise as r_:
+                    got.append(f'raises {r_.exc}')
+                    continue
+                got.append(res.val)
+            exp = [want[excel_op](x, y) for x, y in ((1, 2), (2, 2), (3, 2))]
+            run.check(got == exp, 'C10.R2', f'_by_operator[{cp.label}]/{excel_op}',
+                      'unhandled-operator' if any(isinstance(g_, str) for g_ in got) else 'wrong-comparison',
+                      f'Excel {excel_op} (emitted as {py!r}) gives {got} for the pairs (1,2), (2,2), (3,2); it must give {exp}',
+                      fact=f'{got}', loc=cp.loc(fn))
+
+
 def r2(run: Run, src, rt):
     # operator strings the translator can emit: comparison classes of C01.R1
     from ..emission import get_emission
@@ -263,7 +301,13 @@ def r2(run: Run, src, rt):
             run.bad('C10.R2', f'_by_operator[{cp.label}]', 'missing', 'the operator table does not exist', loc=cp.path)
             continue
         IMAGES.clear()
-        table, default, (opn, ln, rn) = by_operator_table(fn)
+        try:
+            table, default, (opn, ln, rn) = by_operator_table(fn)
+        except AnalysisError:
+            # not written as a match / if-chain / dict of operator functions: decide the table by evaluation
+            sub_rt = type('OneCopy', (), {'copies': staticmethod(lambda cp=cp: [cp])})
+            r2_eval(run, sub_rt, emitted)
+            continue
         # the six comparisons must look at the same image of their operands: if = and <> compare lower-cased texts while the
         # ordering operators compare the raw texts, "a" = "A" and "a" > "A" both hold and trichotomy is lost
         transformed = {t for _, t in IMAGES.values()}
